@@ -160,6 +160,8 @@ package node
 //@   trusted
 //@   modifies d.LastAveragesData, d.LastAverages, d.LastAveragesHeight
 //@   ensures typeis(Avg, "map[fat2.PTicker]uint64") && avgOf(unbox(Avg, "map[fat2.PTicker]uint64"), height)
+//@   // the map handed out is the receiver's cached one or a new one (never somebody else's)
+//@   ensures unbox(Avg, "map[fat2.PTicker]uint64") == old(d.LastAverages) || fresh(unbox(Avg, "map[fat2.PTicker]uint64"))
 //@
 //@ // LpegPaid: the entries whose PEG requests have been paid from a PEG bank (conversion-limit era).  A request is paid once:
 //@ // the payout pass requires every batch it is handed to be unpaid and marks them paid (C06 C16)
